@@ -41,6 +41,13 @@ CAT = [
     ("entry", "conf", "a", [("t", "{5}")], "@conf{\xa0a\u2003, t\xa0= {5}}"),
     ("dupfield", "y", "b", [("x", "{1}"), ("x", "{2}")], "@y{b, x = {1},\u3000x\x0c= {2}}"),
     ("string", "s", "{nbsp}", "@string{\xa0s\xa0= {nbsp}}"),
+    # keys holding characters that mean something to %-formats, templates and regular expressions (DOI-like keys)
+    ("entry", "misc", "10.1%2F%s(0)", [("t", "{6}")], "@misc{10.1%2F%s(0), t = {6}}"),
+    ("entry", "book", "10.1%2F%s(0)", [("u", "{7}")], "@book{10.1%2F%s(0), u = {7}}"),
+    ("string", "p%s", "{pct}", "@string{p%s = {pct}}"),
+    ("string", "p%s", '"again"', '@string{p%s = "again"}'),
+    ("dupfield", "z", "e", [("", "1"), ("", "2")], "@z{e, = 1, = 2}"),  # the empty field key repeated
+    ("dupfield", "z", "f", [("a%d", "1"), ("a%d", "2")], "@z{f, a%d = 1, a%d = 2}"),
     # field keys that differ only in letter case are different keys: a live entry, nothing repeated
     ("entry", "misc", "d", [("X", "{1}"), ("x", "{2}"), ("y", "{3}")], "@misc{d, X = {1}, x = {2}, y = {3}}"),
 ]
@@ -122,7 +129,7 @@ def check_doc(ids, sep, acc, case=None):
     skeys = [CAT[i][1] for i in ids if CAT[i][0] == "string"]
     collision = len(ekeys) != len(set(ekeys)) or len(skeys) != len(set(skeys)) or "dupfield" in kinds
     acc.case(sample=lambda: {"text": text}, nontrivial_key=text if collision else None)
-    for stack in ("default", "none", "copy"):
+    for stack in ("default", "none", "copy") if len(ids) <= 3 else ("default", "none"):
         acc.trace()
         try:
             lib = bibtexparser.parse_string(text) if stack == "default" else bibtexparser.parse_string(text, parse_stack=[] if stack == "none" else [CopyNop()])
@@ -161,8 +168,9 @@ def check_doc(ids, sep, acc, case=None):
                     bad("duplicate_field_block_keeps_every_occurrence", n, repr(inner), c[3])
                     ok = False
                     break
-                if set(b.duplicate_keys) != {"x"}:
-                    bad("duplicate_field_keys_named", n, sorted(b.duplicate_keys), ["x"])
+                want = {k for k, _ in c[3] if [k2 for k2, _ in c[3]].count(k) > 1}
+                if set(b.duplicate_keys) != want:
+                    bad("duplicate_field_keys_named", n, sorted(b.duplicate_keys), sorted(want))
                     ok = False
                     break
             else:
